@@ -64,7 +64,7 @@ def vtimer_src():
 
 class Daemon:
     def __init__(self, ctx, exe, tag="d", key=None, nthreads=2, max_ttl=None, extra=(), env=None, clock=None, nss_db=None,
-                 foreground=True):
+                 foreground=True, launcher=()):
         """foreground=False starts munged the way the shipped service files do (no -F: it forks into the background, the
         process we spawn exits once the daemon is up; the daemon's pid is read from its pid file)"""
         self.foreground = foreground
@@ -89,7 +89,7 @@ class Daemon:
         self.asan_log = os.path.join(self.dir, "asan")
         self.logfile = os.path.join(self.dir, "log")
         self.pidfile = os.path.join(self.dir, "pid")
-        self.args = [exe] + (["-F"] if foreground else []) + ["-S", self.sock, "--key-file=" + self.keyfile,
+        self.args = list(launcher) + [exe] + (["-F"] if foreground else []) + ["-S", self.sock, "--key-file=" + self.keyfile,
                      "--pid-file=" + os.path.join(self.dir, "pid"), "--seed-file=" + os.path.join(self.dir, "seed"),
                      "--log-file=" + self.logfile,
                      "--num-threads=%d" % nthreads] + \
